@@ -2,6 +2,8 @@ package checks
 
 import (
 	"fmt"
+	"os"
+	"path/filepath"
 	"sort"
 	"strings"
 
@@ -463,6 +465,111 @@ func c15Gen(depthQ, depthT int) func(c *engine.C) engine.Case {
 	}
 }
 
+// ---- the rename notation of the synthesised histories is bound to real git
+
+var c15BindOld = []string{"d/a.txt", "a.txt", "d/s/a.txt", "d/s/t/a.txt", "d/ab.txt"}
+
+// c15BindNew lists the destinations of a file: every way of inserting, dropping or replacing one directory level,
+// renaming the base name (also to a name sharing a prefix or a suffix), and moving to or from the root.
+func c15BindNew(old string) []string {
+	parts := strings.Split(old, "/")
+	dirs, base := parts[:len(parts)-1], parts[len(parts)-1]
+	join := func(d []string, b string) string { return strings.Join(append(append([]string{}, d...), b), "/") }
+	var r []string
+	add := func(p string) {
+		if p == old {
+			return
+		}
+		for _, q := range r {
+			if q == p {
+				return
+			}
+		}
+		r = append(r, p)
+	}
+	add(join(dirs, "n"+base))
+	add(join(dirs, strings.TrimSuffix(base, ".txt")+"c.txt"))
+	for i := 0; i <= len(dirs); i++ { // insert a level at depth i
+		d := append(append(append([]string{}, dirs[:i]...), "m"), dirs[i:]...)
+		add(join(d, base))
+	}
+	for i := 0; i < len(dirs); i++ { // drop / replace level i
+		d := append(append([]string{}, dirs[:i]...), dirs[i+1:]...)
+		add(join(d, base))
+		e := append([]string{}, dirs...)
+		e[i] = "e"
+		add(join(e, base))
+		e2 := append([]string{}, dirs...)
+		e2[i] = dirs[i] + "2"
+		add(join(e2, base))
+	}
+	add(base)
+	add(join([]string{"x", "y"}, base))
+	return r
+}
+
+func c15BindGen(c *engine.C) engine.Case {
+	old := c15BindOld[c.Choose(len(c15BindOld), "old-path")]
+	dests := c15BindNew(old)
+	nw := dests[c.Choose(len(dests), "new-path")]
+	touchAfter := c.Bool("modified-after-the-move")
+	return func() engine.Result {
+		res := engine.Result{InputKey: old + " => " + nw + fmt.Sprint(touchAfter), Input: map[string]interface{}{"old": old, "new": nw, "modified_after": touchAfter}, Nontrivial: true}
+		h := []gCommit{{Author: "Ann", Subject: "add", Day: 0, Ops: []gOp{{Kind: "add", Path: old}}}, {Author: "Bob", Subject: "move", Day: 1, Ops: []gOp{{Kind: "rename", Path: old, New: nw}}}}
+		if touchAfter {
+			h = append(h, gCommit{Author: "Ann", Subject: "edit", Day: 2, Ops: []gOp{{Kind: "modify", Path: nw}}})
+		}
+		root, err := os.MkdirTemp(tmpRoot(), "mcbind")
+		if err != nil {
+			panic(err)
+		}
+		defer os.RemoveAll(root)
+		repo := filepath.Join(root, "r.git")
+		if _, err := runGit(root, nil, "init", "-q", "--bare", "--initial-branch=main", repo); err != nil {
+			panic(err)
+		}
+		if _, err := runGit(repo, buildStream(h), "fast-import", "--quiet"); err != nil {
+			panic(err)
+		}
+		// the git invocation of cmd/git.go
+		logText, err := runGit(repo, nil, "log", "--pretty=format:[%h] %aN %ad %s", "--date=short", "--numstat", "--reverse", "--summary")
+		if err != nil {
+			panic(err)
+		}
+		printed := ""
+		for _, l := range strings.Split(logText, "\n") {
+			if f := strings.SplitN(l, "\t", 3); len(f) == 3 && strings.Contains(f[2], " => ") {
+				printed = f[2]
+			}
+		}
+		res.Outcome = printed
+		if printed != renameNotation(old, nw) {
+			res.Violations = append(res.Violations, engine.V("notation-model", "differs-from-git", "git prints the move %s -> %s as %q, the history synthesiser as %q", old, nw, printed, renameNotation(old, nw)))
+			return res
+		}
+		msgs := gitapp.BuildMessageByInput(logText)
+		wantRevs, wantAuthors := 2, 2
+		if touchAfter {
+			wantRevs = 3
+		}
+		team := gitapp.GetTeamSummary(msgs)
+		if len(team) != 1 || team[0].EntityName != nw {
+			res.Violations = append(res.Violations, engine.V("team-summary", "wrong-file-set", "after the move %s (real git log), the team summary lists %+v; exactly %q exists", printed, team, nw))
+		} else if team[0].RevsCount != wantRevs || team[0].AuthorCount != wantAuthors {
+			res.Violations = append(res.Violations, engine.V("team-summary", "wrong-count", "after the move %s (real git log), %q has %d revisions by %d authors reported; %d by %d touched it", printed, nw, team[0].RevsCount, team[0].AuthorCount, wantRevs, wantAuthors))
+		}
+		age := gitapp.CalculateCodeAge(msgs)
+		if len(age) != 1 || age[0].EntityName != nw || age[0].Age.Format("2006-01-02") != "2020-01-01" {
+			var got []string
+			for _, a := range age {
+				got = append(got, a.EntityName+"@"+a.Age.Format("2006-01-02"))
+			}
+			res.Violations = append(res.Violations, engine.V("code-age", "wrong", "after the move %s (real git log), code age lists %v; expected %s@2020-01-01", printed, got, nw))
+		}
+		return res
+	}
+}
+
 func init() {
 	engine.Register(&engine.Spec{
 		ID:    "C15",
@@ -477,6 +584,7 @@ func init() {
 		Sections: []engine.Section{
 			{Name: "histories-full-d3", KQuick: -1, KThor: -1, Gen: c15Gen(3, 3)},
 			{Name: "histories-dev-d5", KQuick: 4, KThor: 5, Gen: c15Gen(5, 6)},
+			{Name: "rename-notation-bound-to-real-git", KQuick: -1, KThor: -1, Gen: c15BindGen},
 		},
 	})
 }
